@@ -20,11 +20,16 @@ def partitions(n: int, max_empty: int):
     return parts, r
 
 
-def reframe(rows, part, meta_every=2):
+BIG = (1 << 20) + 123       # a frame beyond the parser's 1 MiB read chunk, and not a multiple of it
+
+
+def reframe(rows, part, meta_every=2, big_at=None):
     frames, pos = [], 0
     for i, ln in enumerate(part):
         fr = {"rows": rows[pos:pos + ln]}
         pos += ln
+        if i == big_at:
+            fr["meta"] = {"big": b"\xab" * BIG}
         if i % meta_every == 1 or (ln == 0 and i % 3 == 0):
             fr["meta"] = {"k": f"v{i}".encode(), "n": bytes([i % 256]), "raw": b"\xff\xfe\x00" + bytes([i % 256])}
         frames.append(fr)
@@ -80,10 +85,10 @@ def _safe(fn, *a, **kw):
         return f"EXC:{type(ex).__name__}:{str(ex)[:160]}"
 
 
-def check_partition(run, key, rp, rows, den, part, integ):
-    frames = reframe(rows, part)
+def check_partition(run, key, rp, rows, den, part, integ, big_at=None):
+    frames = reframe(rows, part, big_at=big_at)
     data = wire.enc_delimited(frames)
-    rp = dict(rp, partition=list(part), hex=data.hex())
+    rp = dict(rp, partition=list(part), hex=(data.hex() if big_at is None else f"(frame {big_at} carries {BIG} bytes of metadata under the key 'big')"))
     norm = rdf_norm if integ == "rdflib" else terms.norm_item
     want = [norm(x) for x in den]
     flat = _safe(impl.parse, integ, data, "flat")
@@ -289,13 +294,26 @@ def main(tier: str) -> int:
             evaluations += check_partition(run, key, rp, rows, den, part, integ)
         if len(samples) < 3:
             samples.append({"source": name, "rows": len(rows), "partitions": len(sel), "example": list(sel[len(sel) // 2])})
+    # the same, with one frame (the first, a middle one) made larger than 1 MiB by its METADATA: the content is untouched, the frames behind it must still arrive
+    big = 0
+    seen_src: set = set()
+    for integ, name, rows, den in chosen:
+        if (integ, name) in seen_src or big >= (16 if tier == "quick" else 60):
+            continue
+        seen_src.add((integ, name))
+        cand = [p for p in parts[len(rows)][0] if len(p) >= 3]
+        for part in rnd.sample(cand, min(2, len(cand))):
+            for big_at in (0, len(part) // 2):
+                big += 1
+                evaluations += check_partition(run, {"part": "re-partitioning-big-frame", "integ": integ, "source": name, "big_at": ("first" if big_at == 0 else "middle")},
+                                               {"rows": rows}, rows, den, part, integ, big_at=big_at)
     gs, judged = grouped_serialization(run, tier, seed)
     if evaluations < 1000:
         env.machinery_failure(f"C07: only {evaluations} parses (vacuous)")
     return run.finish({
         "states": states, "transitions": trans, "traces_validated_against_impl": judged, "samples": samples, "exhaustive": True,
         "row_sequences": len(chosen), "partition_counts": {n: len(p) for n, (p, _) in parts.items()}, "parses": evaluations,
-        "grouped_serializations": gs,
+        "grouped_serializations": gs, "partitions_with_a_frame_over_1MiB": big,
         "explanation": "spec/Framing.tla enumerates every partition (with empty frames) of an N-row sequence; each partition of each TLC-generated row sequence is re-framed by "
                        "/verif's codec (every second frame carries metadata) and parsed flat and grouped by both integrations against the TLC-computed denotation; "
                        "grouped serialization of sink sequences through one shared stream is checked for one frame per non-empty sink and judged by TLC (TraceReader)",
